@@ -70,6 +70,55 @@ fn collect(mut it: Attributes, cap: usize, checks: bool, reassert: u16) -> Resul
     Ok(out)
 }
 
+/// `Attributes::has_nil` in the middle of an iteration is a piece of that iteration: it looks at the
+/// following attributes up to the first one that says nil=true (errors are skipped), and the
+/// iteration then goes on behind it exactly as if those items had been taken with next().
+fn has_nil_is_part_of_the_iteration(s: &str, html: bool, checks: bool, plain: &[Item]) -> Result<bool, String> {
+    use quick_xml::reader::NsReader;
+    let mut ns = NsReader::from_str("<x xmlns:xsi='http://www.w3.org/2001/XMLSchema-instance' xmlns:i='http://www.w3.org/2001/XMLSchema-instance'>");
+    if !matches!(ns.read_event(), Ok(Event::Start(_))) {
+        return Err("cannot set up the namespace-aware reader".into());
+    }
+    let j = (s.len() % 3).min(plain.len());
+    let says_nil = |i: &Item| match i {
+        Item::Attr(k, v) => (k == b"xsi:nil" || k == b"i:nil") && quick_xml::events::attributes::Attribute::from((&k[..], &v[..])).as_bool() == Some(true),
+        _ => false,
+    };
+    let hit = plain[j..].iter().position(says_nil);
+    let mut it = if html { Attributes::html(s, 1) } else { Attributes::new(s, 1) };
+    it.with_checks(checks);
+    let mut got: Vec<Item> = vec![];
+    for _ in 0..j {
+        match it.next() {
+            Some(Ok(a)) => got.push(Item::Attr(a.key.as_ref().to_vec(), a.value.to_vec())),
+            Some(Err(e)) => got.push(Item::Err(e)),
+            None => break,
+        }
+    }
+    let answer = it.has_nil(&ns);
+    if answer != hit.is_some() {
+        return Err(format!("has_nil after {} items of tag content {:?} answers {}, the items behind say {}", j, s, answer, hit.is_some()));
+    }
+    let resume = match hit {
+        Some(h) => j + h + 1,
+        None => plain.len(),
+    };
+    let mut rest = vec![];
+    while let Some(x) = it.next() {
+        rest.push(match x {
+            Ok(a) => Item::Attr(a.key.as_ref().to_vec(), a.value.to_vec()),
+            Err(e) => Item::Err(e),
+        });
+        if rest.len() > s.len() + 1 {
+            return Err("iterator does not end after has_nil".into());
+        }
+    }
+    if got[..] != plain[..j] || rest[..] != plain[resume..] {
+        return Err(format!("{} mode, checks {}: tag content {:?}: has_nil after {} items (answer {}), then the iteration gives {:?}; without the call the items from there are {:?}", if html { "HTML" } else { "XML" }, checks, s, j, answer, show(&rest), show(&plain[resume..])));
+    }
+    Ok(hit.is_some())
+}
+
 pub fn check(c: &Case) -> Verdict {
     let s = match std::str::from_utf8(&c.content.0) {
         Ok(s) => s,
@@ -152,6 +201,17 @@ pub fn check(c: &Case) -> Verdict {
     if bytes.len() >= 128 {
         v.classes.push("tag-content->=128-bytes");
     }
+    if got == want && !c.via_reader && s.contains("nil") {
+        match has_nil_is_part_of_the_iteration(s, c.html, c.checks, &got) {
+            Ok(true) => v.classes.push("has_nil-called-mid-iteration-answers-true"),
+            Ok(false) => v.classes.push("has_nil-called-mid-iteration-answers-false"),
+            Err(m) => {
+                v.nontrivial = true;
+                v.fail = Some(m);
+                return v;
+            }
+        }
+    }
     if got != want {
         v.nontrivial = true;
         v.fail = Some(format!("{} mode, checks {}: tag content {:?}: expected {:?}, iterator gave {:?}", if c.html { "HTML" } else { "XML" }, c.checks, s, show(&want), show(&got)));
@@ -191,11 +251,14 @@ const KEYS: &[&str] = &[
     "k0", "k1", "k2", "k3", "k4", "k5", "k6", "k7", "k8", "k9", "k10", "k11", "k12", "k13", "k14", "k15", "k16", "k17", "k18", "k19",
     // keys that start with / contain multi-byte characters (two of them share their first byte)
     "\u{e9}", "\u{e9}t\u{e9}", "\u{43a}\u{43b}\u{44e}\u{447}", "\u{65e5}\u{672c}", "k\u{e9}", "\u{e8}",
+    // the schema-instance attribute and look-alikes (Attributes::has_nil in the middle of an iteration)
+    "xsi:nil", "nil", "xmlns:xsi",
 ];
 const SPACES: &[&str] = &["", "", " ", "\t", " \n "];
 const VALUES: &[&str] = &[
     "", "v", "x y", " lead", "trail ", "a=b", ">", "it's", "say \"hi\"", "a b=\"c\" d", "&amp;", "/",
     "0123456789abcde", "0123456789abcdef", "0123456789abcdef0", "a value that is longer than thirty-two bytes =\"x\"", "a value of more than sixty-four bytes, with an apostrophe ' and > and = inside it ...",
+    "true", "1", "false", "http://www.w3.org/2001/XMLSchema-instance",
 ];
 
 fn render(attrs: &[GenAttr]) -> String {
@@ -252,7 +315,7 @@ fn render(attrs: &[GenAttr]) -> String {
 }
 
 fn attr_strategy() -> impl Strategy<Value = GenAttr> {
-    (prop_oneof![6 => 0u8..8, 2 => 8u8..32, 1 => 32u8..38], 0u8..5, 0u8..5, 0u8..2, prop_oneof![4 => 0u8..12, 1 => 12u8..17], prop_oneof![6 => Just(0u8), 1 => Just(1u8), 1 => Just(2u8), 1 => Just(3u8), 1 => Just(4u8)], 0u8..6).prop_map(|(key, sp1, sp2, quote, value, fault, lead)| GenAttr { key, sp1, sp2, quote, value, fault, lead })
+    (prop_oneof![6 => 0u8..8, 2 => 8u8..32, 1 => 32u8..38, 1 => 38u8..41], 0u8..5, 0u8..5, 0u8..2, prop_oneof![4 => 0u8..12, 1 => 12u8..17, 1 => 17u8..21], prop_oneof![6 => Just(0u8), 1 => Just(1u8), 1 => Just(2u8), 1 => Just(3u8), 1 => Just(4u8)], 0u8..6).prop_map(|(key, sp1, sp2, quote, value, fault, lead)| GenAttr { key, sp1, sp2, quote, value, fault, lead })
 }
 
 fn run(ctx: &Ctx) {
